@@ -178,7 +178,7 @@ func runC02(env *Env, tier string) {
 	}
 	var stims []stim
 	for i := 0; i < nstim; i++ {
-		st := stim{kind: ch.Weighted("stim", []int{3, 2, 4, 2, 2})}
+		st := stim{kind: ch.Weighted("stim", []int{6, 4, 8, 4, 4, 1})}
 		if st.kind == 2 {
 			st.a = 1 + ch.Choose("rrb", histEnd+2)
 			st.b = []int{0, st.a + ch.Choose("rrlen", 4)}[ch.Choose("rre", 2)]
@@ -368,6 +368,11 @@ func runC02(env *Env, tier string) {
 			b, _ := p.Build("D", AppBody(p.NextID()), MsgOpt{})
 			p.EP.Feed(b)
 			env.Rec("peer>:stim", "app", "", true)
+		case 5: // the peer logs out: the engine answers with its Logout and ends the connection while senders are active
+			b, _ := p.Build("5", nil, MsgOpt{})
+			p.EP.Feed(b)
+			env.Rec("peer>:stim", "logout", "", true)
+			env.Stat("probe_logout_during_sends")
 		case 4: // time: heartbeat timer; the advance ends at the first park
 			select {
 			case <-sched.ParkSignal():
@@ -458,6 +463,7 @@ func judgeC02(env *Env, s *Sut, c EngineCfg, ops []c02op, startN int, rrNs []int
 				// may or may not start the numbering over
 				anyFailedReset = true
 				failedReset = call.N
+				refreshNs = append(refreshNs, call.N) // it may have re-read the counter files before it failed
 			}
 			continue
 		}
@@ -532,6 +538,7 @@ func judgeC02(env *Env, s *Sut, c EngineCfg, ops []c02op, startN int, rrNs []int
 		lastFirst := 0
 		lastEpoch := -1
 		replaySeen := false
+		logoutWritten := false
 		for _, w := range ws {
 			if !w.OK {
 				continue
@@ -543,6 +550,15 @@ func judgeC02(env *Env, s *Sut, c EngineCfg, ops []c02op, startN int, rrNs []int
 			}
 			n := m.Seq()
 			ep := epochAt(w.N)
+			// (vii) nothing is transmitted for the first time behind the engine's own Logout (C08's clause, which
+			// needs this check's interleavings to be exercised)
+			if logoutWritten && !m.IsAdmin() {
+				env.Violate("C02/app-after-logout", "application message 34=%d transmitted for the first time on connection %d after the engine's Logout", m.Seq(), cr.ID)
+				return
+			}
+			if m.Type() == "5" {
+				logoutWritten = true
+			}
 			// (ii) first-time transmissions carry increasing numbers within an epoch
 			if ep != lastEpoch {
 				lastFirst = 0
